@@ -44,7 +44,12 @@ func hasOperator(d *dataTreeNavigator, context Context, expressionNode *Expressi
 				if errParsingInt != nil {
 					return Context{}, errParsingInt
 				}
-				candidateHasKey = int64(len(contents)) > number
+				if number >= 0 {
+					candidateHasKey = int64(len(contents)) > number
+				} else {
+					// a negative index counts from the end, as it does in .[-1]
+					candidateHasKey = int64(len(contents)) >= -number
+				}
 			}
 			results.PushBack(createBooleanCandidate(candidate, candidateHasKey))
 		default:
